@@ -1280,11 +1280,12 @@ impl SourceBuf {
             return Ok(false);
         }
 
-        let (sym, sym_end) =
-            match Symbol::from_slice_index(&self.buf, sym_end) {
-                Ok(Some(some)) => some,
-                _ => return Ok(false),
-            };
+        // The marker has to be the whole token. The symbol that ends it
+        // stays in the buffer for `next_item`.
+        let (sym, _) = match Symbol::from_slice_index(&self.buf, sym_end) {
+            Ok(Some(some)) => some,
+            _ => return Ok(false),
+        };
         if sym.is_word_char() {
             return Ok(false);
         }
